@@ -229,15 +229,19 @@ inline int drive(int argc, char **argv, const ExecFn &fn, const ExecFn *warm_fn 
         char b[4096];
         ssize_t n;
         while ((n = read(errpipe[0], b, sizeof b)) > 0)
-            if (err.size() < 6000) err.append(b, (size_t) n);
+            if (err.size() < 60000) err.append(b, (size_t) n);
         close(errpipe[0]);
         int st = 0;
         waitpid(pid, &st, 0);
         if (WIFSIGNALED(st) && WTERMSIG(st) == SIGALRM) ++wall_hits;
+        // a sanitizer report names who released the memory far down ("freed by thread ..."): keep the head of that part too
+        std::string freed;
+        auto fp = err.find("freed by thread");
+        if (fp != std::string::npos) freed = err.substr(fp, 6000);
         if (WIFSIGNALED(st)) {
-            out().line("\"e\":\"Crash\",\"sig\":%d,\"stderr\":%s", WTERMSIG(st), jstr(err.substr(0, 1500)).c_str());
+            out().raw("\"e\":\"Crash\",\"sig\":" + std::to_string(WTERMSIG(st)) + ",\"stderr\":" + jstr(err.substr(0, 1500)) + ",\"freed_by\":" + jstr(freed));
         } else if (WIFEXITED(st) && WEXITSTATUS(st) != 0) {
-            out().line("\"e\":\"Crash\",\"sig\":0,\"exit\":%d,\"stderr\":%s", WEXITSTATUS(st), jstr(err.substr(0, 1500)).c_str());
+            out().raw("\"e\":\"Crash\",\"sig\":0,\"exit\":" + std::to_string(WEXITSTATUS(st)) + ",\"stderr\":" + jstr(err.substr(0, 1500)) + ",\"freed_by\":" + jstr(freed));
         } else if (!err.empty() && getenv("HR_SHOW_STDERR")) {
             out().line("\"e\":\"Stderr\",\"stderr\":%s", jstr(err.substr(0, 1500)).c_str());
         }
